@@ -16,6 +16,7 @@ fn prefix_of(class: &str, good: &str) -> String {
         }
         "empty" => String::new(),
         "toolong" => "a".repeat(84),
+        "other" => "cosmos".to_string(),
         _ => format!("{} x", good), // a space: outside the allowed character range
     }
 }
